@@ -6,8 +6,9 @@ unregistered / updated / the instance closed at offsets around those queries.  T
 operations, broadcast-task steps, queue adds, queue timer firings, immediate answers, close) are logged by
 class-level wrappers and replayed through the Lean model `Zc.Goodbye.Host.step` (driver command `c08run`), which
 must find every block enabled and predict every datagram (stage C).  The property's own sentence -- three
-complete goodbyes 125 ms apart, and afterwards never one of those records with a non-zero TTL -- is evaluated on
-the wire-level log by an independent oracle (stage O).
+complete goodbyes (on every interface), and afterwards never one of those records with a non-zero TTL -- is evaluated on
+the wire-level log by an independent oracle (stage O).  Every simulated instance ends in `AsyncZeroconf.async_close`, and
+the close is judged like an unregister of everything that is still registered.
 """
 from __future__ import annotations
 
@@ -23,8 +24,8 @@ TRUSTED = [
     "which records answer a query and by which route (now / aggregated / delayed / unicast) is an input of the model, constrained to records of "
     "currently registered services (C03, C11, C12); queue timer instants are inputs (C12); type-enumeration queries are not generated",
 ]
-ASSUMPTIONS = ["asyncio runs callbacks to completion (atomic blocks); a ServiceInfo is not mutated while one of its broadcast tasks is running; "
-               "'never again' ends when a service defining the record is registered again"]
+ASSUMPTIONS = ["asyncio runs callbacks to completion (atomic blocks); a due task step is executed (loop axiom); "
+               "'never again' ends, record by record, when a service defining that very record is registered again"]
 
 GOODBYE = 125  # ms between goodbyes      (English statement)
 T0 = 10_000
@@ -85,7 +86,36 @@ def gen_superseded(rng, idx):
     return {"idx": idx, "svcs": svcs, "ops": ops, "seed": rng.randrange(1 << 30), "delays": [0] * 60, "draws": [rng.choice([20, 60, 120]) for _ in range(6)]}
 
 
+BIG_TXT = (b"\xfa" + b"k=" + b"v" * 248) * 6  # 1506 bytes of TXT rdata: the record needs a datagram of its own (> 1460 bytes)
+
+
+def gen_reuse(rng, idx):
+    """the same ServiceInfo object is unregistered and handed to async_register_service again at once, the goodbye task not
+    awaited (the host's own announcement of the name is still in its cache: with renaming allowed the object is renamed before the
+    goodbye task's first step -- D27, repaired)"""
+    h = rng.choice([HOSTS[0], HOSTS[1]])
+    svcs = [{"inst": "svc0", "type": rng.choice(TYPES), "server": h[0], "v4": list(h[1]), "v6": list(h[2]), "port": 80, "text": "",
+             "host_ttl": 120, "other_ttl": 4500}]
+    if rng.random() < 0.4:
+        svcs.append({"inst": "svc1", "type": rng.choice(TYPES), "server": rng.choice([h[0], "hostb.local."]), "v4": ["0a000002"], "v6": [], "port": 81, "text": "",
+                     "host_ttl": 120, "other_ttl": 4500})
+    at = rng.choice([900, 1500, 3000]) + rng.randint(0, 30)
+    ops = [{"op": "register", "svc": i, "at": 0} for i in range(len(svcs))]
+    if rng.random() < 0.5:
+        ops.append({"op": "query", "at": at - rng.choice([5, 40, 300]), "svc": 0, "kind": rng.choice(["ptr", "srv", "resolve"]), "delay": 0})
+    ops.append({"op": "reregister", "svc": 0, "at": at, "allow": rng.random() < 0.8, "gap": rng.choice([0, 0, 0, 100, 300])})
+    return {"idx": idx, "svcs": svcs, "ops": ops, "seed": rng.randrange(1 << 30), "delays": [0] * 60, "draws": [rng.choice([20, 60, 120]) for _ in range(6)]}
+
+
 def gen_scenario(rng, idx):
+    sc = gen_scenario0(rng, idx)
+    # a host with two interfaces (two sender transports): every broadcast leaves on both
+    if rng.random() < 0.15:
+        sc["ifaces"] = 2
+    return sc
+
+
+def gen_scenario0(rng, idx):
     r = rng.random()
     if r > 0.95:
         return gen_superseded(rng, idx)
@@ -93,17 +123,22 @@ def gen_scenario(rng, idx):
         return gen_overlap(rng, idx)
     if r < 0.16:
         return gen_nsec(rng, idx)
+    if r < 0.20:
+        return gen_reuse(rng, idx)
     nsvc = rng.choice([1, 1, 2, 2, 3])
     svcs = []
     for i in range(nsvc):
         h = rng.choice([HOSTS[0], HOSTS[1], HOSTS[3]]) if rng.random() < 0.8 else HOSTS[2]
         svcs.append({"inst": "svc%d" % i, "type": rng.choice(TYPES), "server": h[0], "v4": list(h[1]), "v6": list(h[2]) if rng.random() < 0.8 else [],
-                     "port": 80 + i, "text": rng.choice(["", "03613d31"]), "host_ttl": rng.choice([120, 120, 10, 4500]), "other_ttl": rng.choice([4500, 4500, 1125, 60]),
+                     "port": 80 + i, "text": rng.choice(["", "03613d31", "", "03613d31", BIG_TXT.hex()]), "host_ttl": rng.choice([120, 120, 10, 4500]), "other_ttl": rng.choice([4500, 4500, 1125, 60]),
                      "weight": rng.choice([0, 5, 7]), "priority": rng.choice([0, 3, 9])})
     ops = []
     # registrations: at the start (announcements complete by 800 ms) or late
     for i in range(nsvc):
-        ops.append({"op": "register", "svc": i, "at": rng.choice([0, 0, 0, 400, 1500])})
+        op = {"op": "register", "svc": i, "at": rng.choice([0, 0, 0, 400, 1500])}
+        if rng.random() < 0.15:
+            op["ttl"] = rng.choice([60, 120, 4500])  # the legacy `ttl=` argument of register_service
+        ops.append(op)
     horizon = 4000
     nq = rng.choice([0, 1, 2, 3, 4, 6])
     qtimes = []
@@ -121,7 +156,11 @@ def gen_scenario(rng, idx):
     for _ in range(nw):
         mode = rng.choices(["unregister", "unregister_after_register", "close", "unregister_all", "update"], [55, 12, 15, 8, 10])[0]
         if mode == "unregister_after_register":
-            ops.append({"op": mode, "svc": rng.randrange(nsvc)})
+            # withdraw while the three announcements (0 / 225 / 450 ms after the registration) are still going out
+            op = {"op": mode, "svc": rng.randrange(nsvc), "gap": rng.choice([0, 0, 50, 224, 226, 300, 449])}
+            if rng.random() < 0.4:
+                op["ttl"] = rng.choice([60, 120])
+            ops.append(op)
             continue
         if qtimes and rng.random() < 0.8:
             qa, tgt = rng.choice(qtimes)
@@ -183,6 +222,8 @@ class Tap:
         self.saved = []
         self.ctx = {}
         self.bcount = {}
+        self.cur_tr = 0  # index of the transport (interface) the datagram being sent leaves on
+        self.in_close = {}  # id(zc) -> number of public close calls (AsyncZeroconf.async_close) in progress
 
     def install(self):
         import zeroconf._core as core
@@ -204,6 +245,19 @@ class Tap:
                 tap.ev.append(("bdone", sim.now(), id(self_), id(info), ttl, broadcast_addresses, n))
 
         o_radd, o_rupd = ServiceRegistry.async_add, ServiceRegistry.async_update
+        o_chk = Z.async_check_service
+
+        async def chk(self_, info, allow_name_change, cooperating_responders=False, strict=True):
+            # async_register_service was handed this object (it may rename it)
+            tap.keep.append(info)
+            tap.ev.append(("chk", sim.now(), id(self_), id(info), info.name))
+            return await o_chk(self_, info, allow_name_change, cooperating_responders, strict)
+
+        o_sendto = vsim.FakeTransport.sendto
+
+        def sendto(self_, data, addr=None):
+            tap.cur_tr = self_.host.transports.index(self_) if self_ in self_.host.transports else 0
+            return o_sendto(self_, data, addr)
 
         def send(self_, out, addr=None, port=5353, v6_flow_scope=(), transport=None):
             tag = tap.tags.get(id(out)) or tap.ctx.get(id(self_)) or ("ans",)
@@ -215,12 +269,13 @@ class Tap:
             tid = id(asyncio.current_task())
             tap.bcount[tid] = tap.bcount.get(tid, 0) + 1
             tap.keep.append(out)
-            tap.tags[id(out)] = ("bcast", id(info), ttl, broadcast_addresses)
+            # the fields the object has *now*: a broadcast task reads the object at each of its steps (D27)
+            tap.tags[id(out)] = ("bcast", id(info), ttl, broadcast_addresses, c08_fields(info))
             return out
 
         def gall(self_):
             out = o_all(self_)
-            tap.ev.append(("allgen", sim.now(), id(self_), out is not None, id(out)))
+            tap.ev.append(("allgen", sim.now(), id(self_), out is not None, id(out), bool(tap.in_close.get(id(self_)))))
             if out is not None:
                 tap.keep.append(out)
                 tap.tags[id(out)] = ("all", id(out))
@@ -233,8 +288,23 @@ class Tap:
 
         def close(self_):
             if not self_.done:
-                tap.ev.append(("close", sim.now(), id(self_)))
+                tap.ev.append(("close", sim.now(), id(self_), bool(tap.in_close.get(id(self_)))))
             return o_close(self_)
+
+        import zeroconf.asyncio as zasync
+
+        o_aclose = zasync.AsyncZeroconf.async_close
+
+        async def aclose(self_):
+            # the public close call: everything between "aclose enter" and "aclose exit" with the in-close flag belongs to it
+            z = id(self_.zeroconf)
+            tap.ev.append(("aclose", sim.now(), z, "enter"))
+            tap.in_close[z] = tap.in_close.get(z, 0) + 1
+            try:
+                return await o_aclose(self_)
+            finally:
+                tap.in_close[z] -= 1
+                tap.ev.append(("aclose", sim.now(), z, "exit"))
 
         def qadd(self_, now, answers):
             n0 = len(sim.draws)
@@ -269,15 +339,22 @@ class Tap:
         Z.async_send, Z.generate_service_broadcast, Z.generate_unregister_all_services, Z.async_unregister_service, Z._close = send, gen, gall, unreg, close
         MQ.async_add, MQ.async_ready = qadd, qready
         Z._async_broadcast_service = bc
+        Z.async_check_service = chk
+        vsim.FakeTransport.sendto = sendto
+        zasync.AsyncZeroconf.async_close = aclose
         ServiceRegistry.async_add, ServiceRegistry.async_update = radd, rupd
-        self.saved = [(Z, "_async_broadcast_service", o_bc), (Z, "async_send", o_send), (Z, "generate_service_broadcast", o_gen), (Z, "generate_unregister_all_services", o_all),
+        self.saved = [(zasync.AsyncZeroconf, "async_close", o_aclose), (Z, "async_check_service", o_chk), (vsim.FakeTransport, "sendto", o_sendto), (Z, "_async_broadcast_service", o_bc), (Z, "async_send", o_send), (Z, "generate_service_broadcast", o_gen), (Z, "generate_unregister_all_services", o_all),
                       (Z, "async_unregister_service", o_unreg), (Z, "_close", o_close), (MQ, "async_add", o_qadd), (MQ, "async_ready", o_qready),
                       (ServiceRegistry, "async_add", o_radd), (ServiceRegistry, "async_update", o_rupd)]
-        sim.net.on_send = lambda t, src, data, addr: tap.ev.append(("send", t, id(src.zc), data, addr))
+        sim.net.on_send = lambda t, src, data, addr: tap.ev.append(("send", t, id(src.zc), data, addr, tap.cur_tr))
 
     def remove(self):
         for cls, name, orig in self.saved:
             setattr(cls, name, orig)
+
+
+Host2 = c09.Host2
+make_host = c09.make_host
 
 
 def c08_fields(info):
@@ -301,7 +378,7 @@ def run_scenario(sc):
             tap.remove()
 
     async def body(sim, tap):
-        a = sim.make_host("A", "10.0.0.1")
+        a = make_host(sim, sc.get("ifaces", 1))
         za = a.zc
         await za.async_wait_for_start()
         infos = []
@@ -332,20 +409,36 @@ def run_scenario(sc):
         errors = []
         nq = [0]
         closed = [False]
+        handed = set()  # objects the instance has been given (the legacy `ttl=` argument rewrites the object's TTLs: only for fresh objects)
+
+        def ttl_for(op, info):
+            return op.get("ttl") if id(info) not in handed else None
 
         async def scenario_op(op):
             try:
                 k = op["op"]
                 if k == "unregister_after_register":
-                    # D6: withdraw as soon as async_register_service returns
-                    await za.async_register_service(infos[op["svc"]])
+                    # D6: withdraw as soon as async_register_service returns (or `gap` ms later, between the announcements)
+                    ttl = ttl_for(op, infos[op["svc"]])
+                    handed.add(id(infos[op["svc"]]))
+                    await za.async_register_service(infos[op["svc"]], ttl=ttl)
+                    if op.get("gap"):
+                        await sim.sleep_ms(op["gap"])
                     await za.async_unregister_service(infos[op["svc"]])
                     return
                 await sim.sleep_until(T0 + op["at"])
                 if closed[0] and k != "query":
                     return
                 if k == "register":
-                    await za.async_register_service(infos[op["svc"]])
+                    ttl = ttl_for(op, infos[op["svc"]])
+                    handed.add(id(infos[op["svc"]]))
+                    await za.async_register_service(infos[op["svc"]], ttl=ttl)
+                elif k == "reregister":
+                    # the same object: unregistered, then registered again without awaiting the goodbye task
+                    await za.async_unregister_service(infos[op["svc"]])
+                    if op.get("gap"):
+                        await sim.sleep_ms(op["gap"])
+                    await za.async_register_service(infos[op["svc"]], allow_name_change=op.get("allow", True))
                 elif k == "query":
                     nq[0] += 1
                     data = build_query(sc, op, nq[0])
@@ -359,6 +452,7 @@ def run_scenario(sc):
                         cur[op["svc"]].update(op["change"])
                         changed[op["svc"]] = True
                     h = handle(op["svc"], op.get("via", "same"))
+                    handed.add(id(h))
                     await za.async_update_service(h)
                     infos[op["svc"]] = h
                 elif k == "unregister_all":
@@ -403,15 +497,51 @@ def all_recs(data):
     return an + au + ad
 
 
+def msg_canon(dgs):
+    """canonical form of the message one `async_send` call put on one interface: a message that needs several datagrams
+    (a TXT record above 1460 bytes travels alone) is compared as a whole -- how it is cut into datagrams is C14's subject"""
+    if len(dgs) <= 1:
+        return ";".join(c09.pkt_canon(d) for d in dgs)
+    ms = [c09.decode(d) for d in dgs]
+    if any(m[0].is_query() for m in ms) or len({m[0].flags for m in ms}) != 1:
+        return ";".join(c09.pkt_canon(d) for d in dgs)
+    return "%d##%s#%s#%s" % (ms[0][0].flags, "|".join(sorted(c09.rec_canon(r) for m in ms for r in m[1])),
+                             "|".join(sorted(c09.rec_canon(r) for m in ms for r in m[2])), "|".join(sorted(c09.rec_canon(r) for m in ms for r in m[3])))
+
+
 def obs_done(ev, i):
     """was `_close` logged before event i?"""
     return any(e[0] == "close" for e in ev[:i])
+
+
+def close_shape(ev, i):
+    """what the public close call that contains event i did, as the model names its blocks: all / alls / close, in order"""
+    lo = i
+    while lo > 0 and not (ev[lo][0] == "aclose" and ev[lo][3] == "enter"):
+        lo -= 1
+    shape = []
+    nsend = {}
+    for x in ev[lo:]:
+        if x[0] == "aclose" and x[3] == "exit":
+            break
+        if x[0] == "allgen" and x[5]:
+            shape.append("all")
+            if x[3]:
+                nsend[x[4]] = 0
+        elif x[0] == "asend" and x[3][0] == "all" and x[3][1] in nsend:
+            nsend[x[3][1]] += 1
+            if nsend[x[3][1]] > 1:  # the first send belongs to the `all` block
+                shape.append("alls")
+        elif x[0] == "close" and x[3]:
+            shape.append("close")
+    return ",".join(shape)
 
 
 def trace_ops(obs):
     """[(op line, expected output token, time)] for host A"""
     zc, rid = obs["zc"], obs["registry_id"]
     oids = {}
+    known = {}  # object id -> the fields the model believes the object has
 
     def oid(i):
         return oids.setdefault(i, len(oids) + 1)
@@ -420,34 +550,50 @@ def trace_ops(obs):
     ev = [e for e in obs["ev"] if e[2] in (zc, rid)]
     i = 0
     seen_all = set()
+    close_announced = False
     while i < len(ev):
         e = ev[i]
         k, t = e[0], e[1]
-        # datagrams that follow an async_send
+        # datagrams that follow an async_send, as they left on the first interface (the oracle compares the interfaces)
         def sends_after(j):
             out = []
             j += 1
             while j < len(ev) and ev[j][0] == "send":
-                out.append(ev[j][3])
+                if ev[j][5] == 0:
+                    out.append(ev[j][3])
                 j += 1
             return out, j
+
+        def closecall():
+            # the public close call as a program of blocks, predicted by the model from the translated call order
+            return ("closecall a %d" % t, close_shape(ev, i), t)
 
         if k == "reg":
             ops.append(("flush %d" % t, "ok", t))
             ops.append(("reg %d %d %s" % (oid(e[3]), t, svc_tokens(e[4])), "-", t))
+            known[e[3]] = e[4]
         elif k == "upd":
             ops.append(("flush %d" % t, "ok", t))
             ops.append(("upd %d %d %s" % (oid(e[3]), t, svc_tokens(e[4])), "-", t))
+            known[e[3]] = e[4]
         elif k == "unreg":
             ops.append(("flush %d" % t, "ok", t))
             ops.append(("unreg %d %d %s" % (oid(e[3]), t, svc_tokens(e[4])), "-", t))
+            known[e[3]] = e[4]
         elif k == "close":
             ops.append(("flush %d" % t, "ok", t))
+            if e[3] and not close_announced:
+                ops.append(closecall())
+                close_announced = True
             ops.append(("close", "-", t))
         elif k == "bdone" and e[6] < 3:
             # the coroutine returned before its third broadcast: it stopped silently (the info is no longer the registered one)
             ops.append(("stop %d %s %s %d" % (oid(e[3]), "-" if e[4] is None else str(e[4]), C.b01(e[5]), t), "ok", t))
         elif k == "allgen":
+            if e[5] and not close_announced:
+                ops.append(("flush %d" % t, "ok", t))
+                ops.append(closecall())
+                close_announced = True
             if not e[3]:
                 ops.append(("flush %d" % t, "ok", t))
                 ops.append(("all %d" % t, "-", t))
@@ -460,18 +606,22 @@ def trace_ops(obs):
             j = i + 1
             dgs = []
             while ev[j][0] != "rdy-end":
-                if ev[j][0] == "send":
+                if ev[j][0] == "send" and ev[j][5] == 0:
                     dgs.append(ev[j][3])
                 j += 1
             ops.append(("flush %d" % t, "ok", t))
-            ops.append(("rdy %s %d" % (C.b01(e[3]), t), ";".join(c09.pkt_canon(d) for d in dgs) or "-", t))
+            ops.append(("rdy %s %d" % (C.b01(e[3]), t), msg_canon(dgs) or "-", t))
             i = j
         elif k == "asend":
             tag = e[3]
             dgs, j = sends_after(i)
-            exp = ";".join(c09.pkt_canon(d) for d in dgs) or "-"
+            exp = msg_canon(dgs) or "-"
             if tag[0] == "bcast":
                 ops.append(("flush %d" % t, "ok", t))
+                if tag[1] in known and tag[4] != known[tag[1]]:
+                    # the object was mutated since the model last saw it (a re-registration renamed it): the running tasks read the object
+                    ops.append(("mut %d %s" % (oid(tag[1]), svc_tokens(tag[4])), "ok", t))
+                    known[tag[1]] = tag[4]
                 ops.append(("task %d %s %s %d" % (oid(tag[1]), "-" if tag[2] is None else str(tag[2]), C.b01(tag[3]), t), exp, t))
             elif tag[0] == "all":
                 ops.append(("flush %d" % t, "ok", t))
@@ -495,19 +645,31 @@ def trace_ops(obs):
 # stage O
 
 
+EXPECTED_API_ERRORS = {"ServiceNameAlreadyRegistered", "NonUniqueNameException", "NotRunningException", "BadTypeInNameException"}
+
+
 def oracle(sc, obs, res, case):
-    from zeroconf import const
+    """the property's two sentences on the wire-level log.
+
+    Clause 1: a service that is unregistered, and every service still registered when the instance is closed, gets TTL-0
+    copies of its PTR, SRV, TXT (and of its address / NSEC records unless a still-registered service uses the host name)
+    multicast three times -- on every interface of the host.  The sentence gives no spacing: only the count is demanded here
+    (the 125 ms are the model's, compared by stage C).
+    Clause 2: after the third goodbye none of those records leaves with a non-zero TTL; the obligation for a *record* ends
+    when a service defining that very record (same owner, type -- for an address also the address) is registered again,
+    not when any other service of the host is."""
     from zeroconf import _dns as d
 
     zc, rid = obs["zc"], obs["registry_id"]
     ev = [e for e in obs["ev"] if e[2] in (zc, rid)]
     viol = []
-    # registry as the events say (independent of the model): name.lower() -> fields
-    reg = {}
-    obligations = []  # {records, from_index (event index of the third goodbye), what}
-    closed_at = None
+    reg = {}  # registry as the events say (independent of the model): name.lower() -> (fields, event index of the registration)
+    obligations = []
     n = len(ev)
     used_gb = set()
+    ifaces = sc.get("ifaces", 1)
+    close_enter = None  # event index at which the public close call in progress began
+    close_idx = [j for j, x in enumerate(ev) if x[0] == "close"]
 
     def recs_of(f, with_host):
         """identity tuples of the records of a service: (kind, lower name, type, rdata...)"""
@@ -532,88 +694,119 @@ def oracle(sc, obs, res, case):
             return ("nsec", r.name.lower())
         return ("other",)
 
+    def sends_of(j):
+        """the datagrams of the async_send logged at event j, per interface; index of the last of them"""
+        per = {}
+        jj = j + 1
+        while jj < n and ev[jj][0] == "send":
+            per.setdefault(ev[jj][5], []).append((ev[jj][3], ev[jj][4]))
+            jj += 1
+        return per, jj - 1
+
+    def judge_goodbye(per, want, what, sigp):
+        """one goodbye: complete, TTL 0, multicast, on every interface"""
+        if sorted(per) != list(range(ifaces)):
+            viol.append((sigp + "-not-on-every-interface", "a goodbye of %s left on interface(s) %r of %d" % (what, sorted(per), ifaces)))
+        for tr, dgs in sorted(per.items()):
+            got = set()
+            for data, addr in dgs:
+                if addr[0] != "224.0.0.251" or addr[1] != 5353:
+                    viol.append(("C08:goodbye-not-multicast", "a goodbye datagram was sent to %r" % (addr,)))
+                for r in all_recs(data):
+                    got.add(ident(r))
+                    if r.ttl != 0:
+                        viol.append(("C08:goodbye-ttl", "a goodbye datagram carries a non-zero TTL"))
+            if got != want:
+                miss, extra = sorted(want - got), sorted(got - want)
+                kind = ("missing-" + miss[0][0]) if miss else ("extra-" + extra[0][0])
+                viol.append(((sigp + "-content:" + kind) if sigp == "C08:goodbye" else (sigp + "-content"),
+                             "goodbye of %s on interface %d: missing %r extra %r" % (what, tr, miss[:3], extra[:3])))
+
     # pass 1: goodbyes
     for i, e in enumerate(ev):
         k, t = e[0], e[1]
         if k in ("reg", "upd"):
             f = e[4]
-            reg[f["name"].lower()] = f
-            # a service defining these records is registered (again): the obligation ends
-            mine = set(recs_of(f, True))
-            for ob in obligations:
-                if ob["until"] is None and mine & ob["records"]:
-                    ob["until"] = i
+            reg[f["name"].lower()] = (f, i)
+            # a service defining some of the withdrawn records is registered (again): the obligation ends for THOSE records
+            for r in recs_of(f, True):
+                for ob in obligations:
+                    if r in ob["records"] and r not in ob["ended"]:
+                        ob["ended"][r] = i
+        elif k == "aclose":
+            close_enter = i if e[3] == "enter" else None
         elif k == "close":
-            closed_at = t
+            # the instance is closed (`done` is set: nothing can be sent any more): every service still registered has had no goodbye
+            for nm, (f, ri) in sorted(reg.items()):
+                if close_enter is not None and ri > close_enter:
+                    # registered while the close call was already saying goodbye: C17's finding D15, reported there
+                    res.count("registered-during-close (C17 D15)")
+                    continue
+                viol.append(("C08:closed-without-goodbyes", "the instance was closed at +%d ms while %s was still registered: no goodbye was ever sent for it" % (t - T0, f["name"])))
         elif k == "unreg":
             f = e[4]
+            if any(j < i for j in close_idx):
+                # an API call on an instance that is already closed: everything registered had its goodbye at the close
+                res.count("unregister-after-close")
+                reg.pop(f["name"].lower(), None)
+                continue
             reg.pop(f["name"].lower(), None)
-            shared = any(g["server"].lower() == f["server"].lower() for g in reg.values())
+            shared = any(g["server"].lower() == f["server"].lower() for g, _ in reg.values())
             want = set(recs_of(f, not shared))
-            # the three goodbye datagrams of this info that follow, at t, t+125, t+250 (each datagram serves one unregister call)
+            # the goodbye datagrams of this object that follow (each serves one unregister call): the one that fits this call best
+            # -- right content, nearest to t, t+125, t+250 -- three times
             gb = []
-            for target in (t, t + GOODBYE, t + 2 * GOODBYE):
+            for kth in range(3):
                 cands = []
                 for j in range(i + 1, n):
                     x = ev[j]
-                    if x[0] == "asend" and x[3][0] == "bcast" and x[3][1] == e[3] and x[3][2] == 0 and x[1] == target and j not in used_gb:
-                        dg = []
-                        jj = j + 1
-                        while jj < n and ev[jj][0] == "send":
-                            dg.append(ev[jj][3])
-                            if ev[jj][4][0] != "224.0.0.251" or ev[jj][4][1] != 5353:
-                                viol.append(("C08:goodbye-not-multicast", "a goodbye datagram was sent to %r" % (ev[jj][4],)))
-                            jj += 1
-                        cands.append((j, (x[1], dg, jj - 1)))
-                # simultaneous unregister calls of one info: each datagram serves one call; take the one that fits this call
-                pick = None
-                for j, g in cands:
-                    if {ident(r) for dgram in g[1] for r in all_recs(dgram)} == want:
-                        pick = (j, g)
-                        break
-                if pick is None and cands:
-                    pick = cands[0]
-                if pick is not None:
-                    used_gb.add(pick[0])
-                    gb.append(pick[1])
-            # async API only: `async_unregister_service` hands the goodbye task to the caller; an application that closes the instance
-            # without awaiting it cuts its own sequence (after `done` nothing is sent at all).  The synchronous wrapper, which gives
-            # the caller nothing to await, is judged without this allowance by `sync_oracle` (D19).
-            cut = closed_at is not None or any(x[0] == "close" and x[1] <= t + 2 * GOODBYE for x in ev)
-            if cut:
-                res.count("goodbyes-cut-by-async-close-not-awaited")
-            if not cut:
-                if [g[0] for g in gb] != [t, t + GOODBYE, t + 2 * GOODBYE]:
-                    viol.append(("C08:goodbye-times", "goodbyes of %s at %r after unregister at %d" % (f["name"], [g[0] - t for g in gb], 0)))
-                for (tg, dg, _) in gb:
-                    got = set()
-                    bad_ttl = False
-                    for dgram in dg:
-                        for r in all_recs(dgram):
-                            got.add(ident(r))
-                            if r.ttl != 0:
-                                bad_ttl = True
-                    if bad_ttl:
-                        viol.append(("C08:goodbye-ttl", "a goodbye datagram carries a non-zero TTL"))
-                    if got != want:
-                        miss = sorted(want - got)
-                        extra = sorted(got - want)
-                        viol.append(("C08:goodbye-content:%s" % ("missing-" + miss[0][0] if miss else "extra-" + extra[0][0]),
-                                     "goodbye of %s: missing %r extra %r (host shared: %s)" % (f["name"], miss[:3], extra[:3], shared)))
+                    if x[0] == "asend" and x[3][0] == "bcast" and x[3][1] == e[3] and x[3][2] == 0 and j not in used_gb:
+                        per, last = sends_of(j)
+                        got = {ident(r) for dgs in per.values() for data, _ in dgs for r in all_recs(data)}
+                        cands.append(((got != want, abs(x[1] - (t + kth * GOODBYE)), j), j, x, per, last))
+                if cands:
+                    _, j, x, per, last = min(cands, key=lambda c: c[0])
+                    used_gb.add(j)
+                    gb.append({"t": x[1], "per": per, "last": last, "j": j, "fields": x[3][4]})
+            gb.sort(key=lambda g: g["j"])
+            sent = [g for g in gb if g["per"]]
+            # D27 (repaired: the goodbye packet is built when async_unregister_service is called): on a tree without the repair, between
+            # the unregister call and a goodbye step the same object was handed to async_register_service and renamed: the goodbyes
+            # carry the new name
+            reused = [g for g in gb if g["fields"]["name"] != f["name"]
+                      and any(x[0] == "chk" and x[3] == e[3] for x in ev[i + 1:g["j"]])]
+            if reused:
+                viol.append(("C08:reused-info-renamed-before-goodbye",
+                             "%s was unregistered and the same ServiceInfo object handed to async_register_service again, which renamed it to %s before "
+                             "the goodbye task's %s step: that goodbye carries the new name, the unregistered name is not withdrawn"
+                             % (f["name"], reused[0]["fields"]["name"], ["first", "second", "third"][gb.index(reused[0])])))
+            elif len(sent) < 3:
+                cut = [j for j in close_idx if j > i and (len(gb) < 3 or j < gb[2]["j"])]
+                if cut:
+                    # KNOWN FINDING (C07:goodbyes-cut-by-close): `async_unregister_service` hands the goodbye task to the caller; an
+                    # application that closes the instance without awaiting it cuts the sequence (`done`: nothing is sent any more)
+                    viol.append(("C08:goodbyes-cut-by-close", "%s unregistered at +%d ms, the instance closed at +%d ms before the third goodbye: %d of 3 goodbyes were multicast"
+                                 % (f["name"], t - T0, ev[cut[0]][1] - T0, len(sent))))
+                else:
+                    viol.append(("C08:goodbye-count", "%d goodbyes of %s were multicast after the unregister at +%d ms (at %r)" % (len(sent), f["name"], t - T0, [g["t"] - t for g in sent])))
+            if not reused:
+                for g in sent:
+                    judge_goodbye(g["per"], want, f["name"], "C08:goodbye")
                     # the rdata of the goodbye copies is the rdata of the service being withdrawn
-                    for dgram in dg:
-                        for r in all_recs(dgram):
-                            if isinstance(r, d.DNSService) and r.name.lower() == f["name"].lower() and \
-                                    (r.priority, r.weight, r.port, r.server) != (f["priority"], f["weight"], f["port"], f["server"]):
-                                viol.append(("C08:goodbye-content:wrong-srv", "goodbye SRV of %s is (prio %d, weight %d, port %d, %s), the service has (%d, %d, %d, %s)"
-                                             % (f["name"], r.priority, r.weight, r.port, r.server, f["priority"], f["weight"], f["port"], f["server"])))
-                            if isinstance(r, d.DNSText) and r.name.lower() == f["name"].lower() and r.text.hex() != f["text"]:
-                                viol.append(("C08:goodbye-content:wrong-txt", "goodbye TXT of %s differs from the service's" % f["name"]))
-            if len(gb) == 3:
-                obligations.append({"records": want, "from": gb[2][2], "until": None, "what": f["name"], "t3": gb[2][0],
-                                    "gb_recs": [r for g in gb for dgram in g[1] for r in all_recs(dgram)]})
+                    for dgs in g["per"].values():
+                        for data, _ in dgs:
+                            for r in all_recs(data):
+                                if isinstance(r, d.DNSService) and r.name.lower() == f["name"].lower() and \
+                                        (r.priority, r.weight, r.port, r.server) != (f["priority"], f["weight"], f["port"], f["server"]):
+                                    viol.append(("C08:goodbye-content:wrong-srv", "goodbye SRV of %s is (prio %d, weight %d, port %d, %s), the service has (%d, %d, %d, %s)"
+                                                 % (f["name"], r.priority, r.weight, r.port, r.server, f["priority"], f["weight"], f["port"], f["server"])))
+                                if isinstance(r, d.DNSText) and r.name.lower() == f["name"].lower() and r.text.hex() != f["text"]:
+                                    viol.append(("C08:goodbye-content:wrong-txt", "goodbye TXT of %s differs from the service's" % f["name"]))
+            if len(sent) == 3:
+                obligations.append({"records": want, "from": sent[2]["last"], "ended": {}, "what": f["name"], "t3": sent[2]["t"], "names": {f["name"].lower()},
+                                    "unreg": i, "gb_recs": [r for g in sent for dgs in g["per"].values() for data, _ in dgs for r in all_recs(data)]})
         elif k == "allgen" and e[3]:
-            fs = list(reg.values())
+            fs = [f for f, _ in reg.values()]
             reg.clear()
             want = set()
             for f in fs:
@@ -622,38 +815,34 @@ def oracle(sc, obs, res, case):
             for j in range(i + 1, n):
                 x = ev[j]
                 if x[0] == "asend" and x[3][0] == "all" and x[3][1] == e[4]:
-                    dg = []
-                    jj = j + 1
-                    while jj < n and ev[jj][0] == "send":
-                        dg.append(ev[jj][3])
-                        jj += 1
-                    gb.append((x[1], dg, jj - 1))
-            cut = any(x[0] == "close" and t <= x[1] <= t + 2 * GOODBYE for x in ev)  # closed by another call before the sequence ended
-            if not cut and [g[0] for g in gb] != [t, t + GOODBYE, t + 2 * GOODBYE]:
-                viol.append(("C08:goodbye-all-times", "goodbyes of all services at %r" % [g[0] - t for g in gb]))
-            for (tg, dg, _) in gb:
-                if cut and not dg:
-                    continue  # the instance was closed meanwhile: nothing is sent any more
-                got = set()
-                for dgram in dg:
-                    for r in all_recs(dgram):
-                        got.add(ident(r))
-                        if r.ttl != 0:
-                            viol.append(("C08:goodbye-ttl", "a goodbye datagram carries a non-zero TTL"))
-                if got != want:
-                    viol.append(("C08:goodbye-all-content", "goodbye of all services: missing %r extra %r" % (sorted(want - got)[:3], sorted(got - want)[:3])))
-            if len(gb) == 3:
-                obligations.append({"records": want, "from": gb[2][2], "until": None, "what": "all services", "t3": gb[2][0],
-                                    "gb_recs": [r for g in gb for dgram in g[1] for r in all_recs(dgram)]})
+                    per, last = sends_of(j)
+                    gb.append({"t": x[1], "per": per, "last": last, "j": j})
+            sent = [g for g in gb if g["per"]]
+            what = "all services (%s)" % ", ".join(sorted(f["name"] for f in fs))
+            if len(sent) < 3:
+                if e[5]:
+                    # the close call's own goodbyes: `_close` must come after them
+                    viol.append(("C08:close-goodbyes-not-sent", "the close call at +%d ms generated the goodbye of %s but %d of 3 were multicast (done was set at %r)"
+                                 % (t - T0, what, len(sent), [ev[j][1] - T0 for j in close_idx])))
+                elif [j for j in close_idx if j > i]:
+                    viol.append(("C08:goodbyes-cut-by-close", "async_unregister_all_services at +%d ms, the instance closed by another call before its third goodbye: %d of 3 were multicast"
+                                 % (t - T0, len(sent))))
+                else:
+                    viol.append(("C08:goodbye-all-count", "%d goodbyes of %s were multicast" % (len(sent), what)))
+            for g in sent:
+                judge_goodbye(g["per"], want, what, "C08:goodbye-all")
+            if len(sent) == 3:
+                obligations.append({"records": want, "from": sent[2]["last"], "ended": {}, "what": "all services", "t3": sent[2]["t"], "names": {f["name"].lower() for f in fs},
+                                    "unreg": i, "gb_recs": [r for g in sent for dgs in g["per"].values() for data, _ in dgs for r in all_recs(data)]})
     # pass 2: after the third goodbye none of those records leaves with a non-zero TTL
     for ob in obligations:
-        hi = ob["until"] if ob["until"] is not None else n
-        for j in range(ob["from"] + 1, hi):
+        for j in range(ob["from"] + 1, n):
             x = ev[j]
             if x[0] != "send" or c09.decode(x[3])[0].is_query():
                 continue
             for r in all_recs(x[3]):
-                if r.ttl > 0 and ident(r) in ob["records"]:
+                idr = ident(r)
+                if r.ttl > 0 and idr in ob["records"] and not (idr in ob["ended"] and ob["ended"][idr] < j):
                     # what produced the datagram?
                     src = "?"
                     for jj in range(j, -1, -1):
@@ -661,17 +850,45 @@ def oracle(sc, obs, res, case):
                             src = ev[jj][3][0]
                             break
                     sig = {"rdy": "C08:queued-answer-after-goodbye", "bcast": "C08:announcement-after-goodbye", "ans": "C08:answer-after-goodbye"}.get(src, "C08:record-after-goodbye")
-                    if src == "rdy" and not any(r == g for g in ob.get("gb_recs", [])):
-                        # KNOWN FINDING D20: same owner name and type as a withdrawn record but other rdata: the version that an
-                        # update_service superseded while it was queued; neither the update nor the unregister purges it
+                    if src == "rdy" and not any(r == g for g in ob.get("gb_recs", [])) and superseded_version(r, ob, ev, d):
+                        # KNOWN FINDING D20: same owner name and type as a withdrawn record but the rdata of a version of the service that an
+                        # update_service replaced before the unregister: neither the update nor the unregister purges it
                         sig = "C08:superseded-record-sent-after-goodbye"
-                    viol.append((sig, "%s record of %s sent with TTL %d at +%d ms after the third goodbye (%s)" % (ident(r)[0], ob["what"], r.ttl, x[1] - ob["t3"], src)))
+                    viol.append((sig, "%s record of %s sent with TTL %d at +%d ms after the third goodbye (%s)" % (idr[0], ob["what"], r.ttl, x[1] - ob["t3"], src)))
                     break
+    for op, exc in obs.get("api_errors", []):
+        res.count("api-error:%s:%s" % (op, exc))
+        if exc not in EXPECTED_API_ERRORS:
+            viol.append(("C08:api-call-raised", "%s raised %s" % (op, exc)))
     seen = set()
     for sig, what in viol:
         if sig not in seen:
             seen.add(sig)
             res.violate(sig, what, case)
+
+
+def superseded_version(r, ob, ev, d):
+    """is `r` (SRV / TXT) the record of a version of a withdrawn service that an `update_service` replaced before the withdrawal --
+    and not of the version that was withdrawn?  (the input class of known finding D20)"""
+    nm = r.name.lower()
+    if nm not in ob["names"]:
+        return False
+    # versions the registry held before the withdrawal, in order; the last of them is the one withdrawn
+    before = [(x[0], x[4]) for x in ev[:ob["unreg"]] if x[0] in ("reg", "upd") and x[4]["name"].lower() == nm]
+    if len(before) < 2 or not any(k == "upd" for k, _ in before[1:]):
+        return False
+    cur = before[-1][1]
+    old = [f for _, f in before[:-1]]
+
+    def srv(f):
+        return (f["priority"], f["weight"], f["port"], f["server"].lower())
+
+    if isinstance(r, d.DNSService):
+        me = (r.priority, r.weight, r.port, r.server.lower())
+        return me != srv(cur) and any(me == srv(f) for f in old)
+    if isinstance(r, d.DNSText):
+        return r.text.hex() != cur["text"] and any(r.text.hex() == f["text"] for f in old)
+    return False
 
 
 # ------------------------------------------------------------------------------------------
@@ -731,10 +948,11 @@ SYNC_FAST = 40  # ms standing for the 125 ms between goodbyes (all protocol time
 SYNC_GAPS = [0, 50, 124, 126, 260]  # ms (unscaled) between the return of unregister_service and the call of close
 
 
-def sync_case(gap_ms, n_services, shared):
+def sync_case(gap_ms, n_services, shared, unregister_first=True):
     """thread-backed instance (no running loop in the calling thread), recording transports on the real loop
     (harness/c17_threads.Rig).  Returns the observation: how many goodbye datagrams (TTL-0 PTR, SRV, TXT of the service,
-    + addresses unless the host is shared) were multicast for the unregistered service."""
+    + addresses unless the host is shared) were multicast for the unregistered service, and for every service that was still
+    registered when `close()` was called.  `unregister_first=False`: `close()` alone, everything still registered."""
     import socket
     import time
 
@@ -752,7 +970,8 @@ def sync_case(gap_ms, n_services, shared):
                 zc.register_service(info, cooperating_responders=True)
             n0 = len(rig.log)
             t_call = time.monotonic()
-            zc.unregister_service(infos[0])
+            if unregister_first:
+                zc.unregister_service(infos[0])
             t_ret = time.monotonic()
             gap = gap_ms * SYNC_FAST / 125.0 / 1000.0
             if gap:
@@ -761,24 +980,27 @@ def sync_case(gap_ms, n_services, shared):
             zc.close()
             t_closed = time.monotonic()
             time.sleep(4 * SYNC_FAST / 1000.0)
-            name = infos[0].name
-            goodbyes = []
+            by_service = {}
             late_positive = []
-            for (t, kind, data, addr) in rig.log[n0:]:
-                if kind != "sent":
-                    continue
-                m = DNSIncoming(data)
-                if not m.valid or m.is_query():
-                    continue
-                recs = list(m.answers())
-                mine = [r for r in recs if r.name == name or getattr(r, "alias", None) == name]
-                if mine and all(int(r.ttl) == 0 for r in mine):
-                    kinds = sorted({type(r).__name__ for r in mine})
-                    goodbyes.append([round((t - t_call) * 1000), kinds, addr[0] if addr else None])
-                elif mine and goodbyes:
-                    late_positive.append(round((t - t_call) * 1000))
+            for info in infos:
+                name = info.name
+                goodbyes = by_service.setdefault(name, [])
+                for (t, kind, data, addr) in rig.log[n0:]:
+                    if kind != "sent":
+                        continue
+                    m = DNSIncoming(data)
+                    if not m.valid or m.is_query():
+                        continue
+                    recs = list(m.answers())
+                    mine = [r for r in recs if r.name == name or getattr(r, "alias", None) == name]
+                    if mine and all(int(r.ttl) == 0 for r in mine):
+                        kinds = sorted({type(r).__name__ for r in mine})
+                        goodbyes.append([round((t - t_call) * 1000), kinds, addr[0] if addr else None])
+                    elif mine and goodbyes and info is infos[0] and unregister_first:
+                        late_positive.append(round((t - t_call) * 1000))
             obs = {"unregister_returned_ms": round((t_ret - t_call) * 1000), "close_called_ms": round((t_close - t_call) * 1000),
-                   "close_returned_ms": round((t_closed - t_call) * 1000), "goodbyes": goodbyes, "positive_after_goodbye": late_positive}
+                   "close_returned_ms": round((t_closed - t_call) * 1000), "goodbyes": by_service[infos[0].name], "positive_after_goodbye": late_positive,
+                   "registered_at_close": {info.name: by_service[info.name] for info in (infos[1:] if unregister_first else infos)}}
         finally:
             if not zc.done:
                 try:
@@ -788,32 +1010,47 @@ def sync_case(gap_ms, n_services, shared):
     return obs
 
 
+def full_goodbyes(gb):
+    return [g for g in gb if {"DNSPointer", "DNSService", "DNSText"} <= set(g[1]) and g[2] == "224.0.0.251"]
+
+
 def sync_oracle(case, obs, res):
-    """the English sentence on the synchronous API: the goodbye copies are multicast three times, whenever close() follows"""
+    """the English sentence on the synchronous API: the goodbye copies are multicast three times, whenever close() follows;
+    and `close()` itself says goodbye three times for everything that is still registered"""
     res.evaluations += 1
-    res.count("sync:gap=%d" % case["gap_ms"])
+    res.count("sync:gap=%d%s" % (case["gap_ms"], "" if case.get("unregister_first", True) else ":close-only"))
     gb = obs["goodbyes"]
-    full = [g for g in gb if {"DNSPointer", "DNSService", "DNSText"} <= set(g[1]) and g[2] == "224.0.0.251"]
-    if len(full) < 3:
-        res.violate("C08:sync-unregister-returns-before-goodbyes",
-                    "unregister_service(info) returned after %d ms (before its goodbye sequence); close() called %d ms later: only %d of the 3 goodbye datagrams "
-                    "were multicast (at %r ms; the protocol interval is scaled to %d ms)"
-                    % (obs["unregister_returned_ms"], obs["close_called_ms"] - obs["unregister_returned_ms"], len(full), [g[0] for g in gb], SYNC_FAST),
-                    dict(case, observed=obs))
-    if obs["positive_after_goodbye"]:
-        res.violate("C08:sync-record-after-goodbye", "a record of the unregistered service left with a non-zero TTL after a goodbye (sync API)", dict(case, observed=obs))
-    if len(full) >= 3:
-        res.nontriv(("sync", case["gap_ms"], case["n_services"], case["shared"]))
+    full = full_goodbyes(gb)
+    if case.get("unregister_first", True):
+        if len(full) < 3:
+            res.violate("C08:sync-unregister-returns-before-goodbyes",
+                        "unregister_service(info) returned after %d ms (before its goodbye sequence); close() called %d ms later: only %d of the 3 goodbye datagrams "
+                        "were multicast (at %r ms; the protocol interval is scaled to %d ms)"
+                        % (obs["unregister_returned_ms"], obs["close_called_ms"] - obs["unregister_returned_ms"], len(full), [g[0] for g in gb], SYNC_FAST),
+                        dict(case, observed=obs))
+        if obs["positive_after_goodbye"]:
+            res.violate("C08:sync-record-after-goodbye", "a record of the unregistered service left with a non-zero TTL after a goodbye (sync API)", dict(case, observed=obs))
+    ok = len(full) >= 3 or not case.get("unregister_first", True)
+    for name, g in sorted(obs.get("registered_at_close", {}).items()):
+        if len(full_goodbyes(g)) < 3:
+            ok = False
+            res.violate("C08:sync-close-without-goodbyes",
+                        "close() was called with %s still registered: %d of the 3 goodbye datagrams (TTL-0 PTR, SRV, TXT) were multicast for it"
+                        % (name, len(full_goodbyes(g))), dict(case, observed=obs))
+    if ok:
+        res.nontriv(("sync", case["gap_ms"], case["n_services"], case["shared"], case.get("unregister_first", True)))
 
 
 def run_sync(res, seed):
     # one service (close() finds the registry empty and sets `done` at once) at every gap; two services (close() spends 250 ms
-    # on the other service's goodbyes, during which the first sequence can finish) at two gaps
+    # on the other service's goodbyes, during which the first sequence can finish) at two gaps; close() alone with one / two
+    # services still registered
     cases = [{"stream": "sync", "gap_ms": gap, "n_services": 1, "shared": False} for gap in SYNC_GAPS]
     cases += [{"stream": "sync", "gap_ms": SYNC_GAPS[(seed + k) % len(SYNC_GAPS)], "n_services": 2, "shared": bool((seed + k) % 2)} for k in range(2)]
+    cases += [{"stream": "sync", "gap_ms": 0, "n_services": 1 + (seed + k) % 2, "shared": bool((seed // 2 + k) % 2), "unregister_first": False} for k in range(2)]
     for case in cases:
         try:
-            obs = sync_case(case["gap_ms"], case["n_services"], case["shared"])
+            obs = sync_case(case["gap_ms"], case["n_services"], case["shared"], case.get("unregister_first", True))
         except Exception as ex:  # noqa: BLE001
             res.notes.append("sync case %r could not run: %r" % (case, ex))
             continue
@@ -823,7 +1060,7 @@ def run_sync(res, seed):
 def run(ctx):
     res = C.Result("C08")
     rng = C.rng_for(ctx["seed"], "c08")
-    n = C.Budget(ctx["tier"], 4000, 60000).n
+    n = C.Budget(ctx["tier"], 3000, 60000).n
     if ctx["widened"]:
         n *= 2
     res.rule = ("scenarios = 1-3 services (shared / unshared host names, v4/v6 mixes, custom TTLs) x queries (single and multi-question, QM/QU/legacy unicast; answered at once, "
@@ -833,7 +1070,7 @@ def run(ctx):
     for name, body in C.load_corpus("C08"):
         if body.get("stream") == "sync" or ("case" in body and body["case"].get("stream") == "sync"):
             case = body.get("case", body)
-            sync_oracle(case, sync_case(case["gap_ms"], case["n_services"], case["shared"]), res)
+            sync_oracle(case, sync_case(case["gap_ms"], case["n_services"], case["shared"], case.get("unregister_first", True)), res)
         else:
             evaluate(body["scenario"] if "scenario" in body else body, res, lines, pending)
         res.count("corpus")
@@ -853,7 +1090,7 @@ def replay(body):
     case = body.get("case", body)
     if case.get("stream") == "sync":
         res = C.Result("C08")
-        obs = sync_case(case["gap_ms"], case["n_services"], case["shared"])
+        obs = sync_case(case["gap_ms"], case["n_services"], case["shared"], case.get("unregister_first", True))
         sync_oracle(case, obs, res)
         return {"violates": bool(res.violations), "violations": [(v["sig"], v["what"]) for v in res.violations], "observed": obs}
     sc = body["case"]["scenario"] if "case" in body else body["scenario"]
